@@ -772,9 +772,13 @@ func (e *Engine) execNext(st *State, f *Frame, x *ssa.Next) (action, []*State) {
 	nidx := io.idx
 	if io.m != 0 {
 		mo := e.objVal(st, io.m).(MapObj)
+		fwd := b.True()
+		if io.rev != nil {
+			fwd = b.Not(io.rev)
+		}
 		for i := len(mo.entries) - 1; i >= 0; i-- {
 			en := mo.entries[i]
-			cand := b.And(en.present, b.Ule(io.idx, b.BV(64, uint64(i))))
+			cand := b.And(fwd, b.And(en.present, b.Ule(io.idx, b.BV(64, uint64(i)))))
 			if cand.IsFalse() {
 				continue
 			}
@@ -783,9 +787,24 @@ func (e *Engine) execNext(st *State, f *Frame, x *ssa.Next) (action, []*State) {
 			nidx = b.Ite(cand, b.BV(64, uint64(i+1)), nidx)
 			okc = b.Or(okc, cand)
 		}
+		if io.rev != nil {
+			// last-to-first over the io.n entries present when the iteration started: idx counts the positions
+			// consumed from the top; the next entry is the largest i < n-idx that is present
+			for i := 0; i < io.n && i < len(mo.entries); i++ {
+				en := mo.entries[i]
+				cand := b.And(io.rev, b.And(en.present, b.Ult(b.Add(io.idx, b.BV(64, uint64(i))), b.BV(64, uint64(io.n)))))
+				if cand.IsFalse() {
+					continue
+				}
+				k = e.mergeVal(cand, en.key, k)
+				v = e.mergeVal(cand, en.val, v)
+				nidx = b.Ite(cand, b.BV(64, uint64(io.n-i)), nidx)
+				okc = b.Or(okc, cand)
+			}
+		}
 	}
 	f.locals[x] = TupleV{Scalar{okc}, k, v}
-	e.setObj(st, ir.obj, IterObj{m: io.m, s: io.s, idx: nidx})
+	e.setObj(st, ir.obj, IterObj{m: io.m, s: io.s, idx: nidx, rev: io.rev, n: io.n})
 	return actNext, nil
 }
 
